@@ -713,6 +713,39 @@ func (u *storeUnderTest) partialUnderflowProbe() string {
 			msg = fmt.Sprintf("after Reweight(2^-1074) the bin stream reports bin %d with weight %v", b.Index(), b.Count())
 		}
 	}
+	if msg != "" || len(before) == 0 {
+		return msg
+	}
+	// weights are now whole numbers of subnormal units, whose sums are exact: three more units added below and above
+	// everything the store ever held (folded into the edge bin by a collapsing store) must show up in the iteration
+	sum := func() float64 {
+		t := 0.0
+		c.ForEach(func(i int, w float64) bool { t += w; return false })
+		return t
+	}
+	lo, hi := math.MaxInt32, math.MinInt32
+	for i := range before {
+		lo, hi = min(lo, i), max(hi, i)
+	}
+	s0 := sum()
+	if c.TotalCount() != s0 {
+		// a store that keeps a running total rounded it on its own (e.g. 7.5 units to 8 while three bins of 2.5 units
+		// went to 2 each) and a collapse may rebuild a bin from that total: units are then not conserved, for a
+		// reason that lies in the rounding of the reweighting itself
+		return msg
+	}
+	added := 0.0
+	if lo-3 > math.MinInt32 {
+		c.AddWithCount(lo-3, 3*0x1p-1074)
+		added += 3 * 0x1p-1074
+	}
+	if hi+3 < math.MaxInt32 {
+		c.AddWithCount(hi+3, 3*0x1p-1074)
+		added += 3 * 0x1p-1074
+	}
+	if s1 := sum(); s1 != s0+added {
+		return fmt.Sprintf("after Reweight(2^-1074) the bins held %v subnormal units; adding %v units outside the former range [%d,%d] leaves %v units in the bins", s0/0x1p-1074, added/0x1p-1074, lo, hi, s1/0x1p-1074)
+	}
 	return msg
 }
 
